@@ -533,6 +533,11 @@ func c03Alphabet(s *sessSys) []sessReq {
 				if x.pdr(5) == nil && x.pdr(6) == nil && x.far(3) == nil && x.qer(7) == nil {
 					np := sdfPDRs(5, xue, xteid, 40, "permit out udp from 10.9.0.0/16 53 to assigned", 3, 3, []uint32{7})
 					add("mod-create", sessReq{sReq: sReq{Kind: kMod, Conn: c, CreatePDR: np, CreateFAR: []sFAR{{ID: 3, Action: ActionDrop}}, CreateQER: []sQER{{ID: 7, QFI: 7, MBRUL: 10, MBRDL: 10}}}, Sess: x.Idx})
+					if x.qer(4) != nil && x.qer(1) != nil && x.far(1) != nil && x.far(2) != nil {
+						// rules created by a modification that list the session-wide QER in front of their application QER
+						ns := sdfPDRs(5, xue, xteid, 41, "permit out udp from 10.9.0.0/16 54 to assigned", 1, 2, []uint32{4, 1})
+						add("mod-create-sessqer-first", sessReq{sReq: sReq{Kind: kMod, Conn: c, CreatePDR: ns}, Sess: x.Idx})
+					}
 				}
 				if p := x.pdr(1); p != nil {
 					// same match key: only precedence / FAR / decap change
@@ -548,6 +553,15 @@ func c03Alphabet(s *sessSys) []sessReq {
 						nk.SDF = ""
 					}
 					add("mod-updr-newkey", sessReq{sReq: sReq{Kind: kMod, Conn: c, UpdatePDR: []sPDR{nk}}, Sess: x.Idx})
+					if p.FTEID != nil && !p.FTEID.Choose {
+						// a request that is refused (Remove FAR of an unknown rule) after its Update PDR moved the rule to a new
+						// tunnel endpoint: nothing of it may stay behind, neither in the tables nor in what a later deletion removes
+						nt := p.sPDR
+						ft := *p.FTEID
+						ft.TEID ^= 0x40
+						nt.FTEID = &ft
+						add("mod-updr-newteid-refused-remove-unknown", sessReq{sReq: sReq{Kind: kMod, Conn: c, UpdatePDR: []sPDR{nt}, RemoveFAR: []uint32{99}}, Sess: x.Idx})
+					}
 				}
 			}
 			if xue != "" && xteid != 0 && x.pdr(5) == nil && x.pdr(6) == nil && x.far(1) != nil && x.far(2) != nil {
